@@ -49,8 +49,10 @@ ASSUMPTIONS = [
     "out by lopdf's writer (classical xref table or xref stream, seeded); object streams are not produced (the writer drops them).",
     "When the loader decrypts a document itself (empty password authenticates) the other passwords are tried with decrypt() on the in-memory "
     "encrypted document (route 'mem').",
-    "Encrypt dictionaries with /Length 256 (V 5) or /Length 40 (V 1) - entries ISO 32000 defines only for V 2/3 but which occur in the wild - "
-    "are probed and reported under coverage.interop_probes; they are never a violation.",
+    "Legal forms of the Length entry (Table 20: defined only for V 2/3, default 40; elsewhere the key length follows from V and the entry "
+    "does not apply): V 1 absent or 40; V 2 the key length, or absent for 40 bits; V 4 absent or 128; V 5 absent or 256. The reference writes "
+    "each form in turn; a failure is attributed to the form only if the same attempt succeeds with the canonical form (V 1 absent, V 4 128, "
+    "V 5 absent). /Length 40 or 128 with V 5 (not legal, accepted by lopdf) is not generated.",
     "Crypt filter method Identity, per-stream Crypt filters, public-key handlers and object streams are outside this check (C05 / not produced).",
 ]
 
@@ -58,6 +60,9 @@ ASSUMPTIONS = [
 # both are repaired (fix: 44ea712, c09ccb6), as are streamdict.string (48a6296), password-over-127.R56 (4d4c742) and the
 # two Perms findings (8d25bb9); signatures come from Trace_SecurityAlgorithms' input classes
 MODEL_DEV = {"h12": False, "ownerAbsent": False}
+# legal forms of the Length entry on which the model of lopdf (Dev_length, still TRUE in the cfgs) derives another key
+# length than the reader of the standard or rejects the dictionary; set() once the repairs are applied and Dev_length = FALSE
+MODEL_DEV_LENGTH = set()          # repaired by 1a492b6 (V5.256) and ce1e5ee (V1.40, V4.absent)
 
 MUTANTS = [("MC_SecurityAlgorithms_mut_alg7.cfg", "AuthOwnerComplete"), ("MC_SecurityAlgorithms_mut_alg12.cfg", "AuthOwnerComplete")]
 
@@ -167,6 +172,14 @@ def check_generated(lines):
                not any(c[exp] and split_at_cut(c["try"]) and c["try"] != c[who] for c in mine) or \
                not any(not c[exp] and len(c["try"]) == 2 and c["try"][1]["id"][0] == "C" for c in mine):
                 raise vlib.ToolError("vacuous: revision %d %s: cut-in-character password not tried with itself / sibling / boundary cut" % (r, who))
+    # the Length entry: every legal form per V is emitted; the modelled deviation occurs exactly in the listed classes
+    forms = {(t["cfg"]["V"], m["cls"]) for t in terms for m in t["lengthModel"]}
+    if not {(1, "none"), (1, "V1.40"), (2, "none"), (2, "V2.absent"), (4, "none"), (4, "V4.absent"), (5, "none"), (5, "V5.256")} <= forms:
+        raise vlib.ToolError("vacuous: legal forms of the Length entry missing: %s" % sorted(forms))
+    if any(t["lengths"] != [m["len"] for m in t["lengthModel"]] or t["canonLength"] not in t["lengths"] for t in terms):
+        raise vlib.ToolError("TERMS line: inconsistent Length forms")
+    if {m["cls"] for t in terms for m in t["lengthModel"] if m["dev"]} != MODEL_DEV_LENGTH:
+        raise vlib.ToolError("modelled Length deviation differs from MODEL_DEV_LENGTH")
     groups = {(json.dumps(c["cfg"], sort_keys=True), c["absent"], json.dumps(c["user"]), json.dumps(c["owner"])) for c in cases}
     return len(terms), len(cases), len(groups)
 
@@ -257,7 +270,7 @@ def run(tier):
             recs.append(r)
     vs = judge(chk, "c06", recs, 6 if thorough else 2)
 
-    stats = {"env_skipped": 0, "saved_same": 0, "saved_other": 0, "probe": {}, "ok": 0}
+    stats = {"env_skipped": 0, "saved_same": 0, "saved_other": 0, "ok": 0}
     seen = set()
     okrecs = []
     for v in vs:
@@ -271,8 +284,6 @@ def run(tier):
                 stats["env_skipped"] += 1
             elif verdict.startswith("ok-saved-"):
                 stats["saved_same" if verdict == "ok-saved-same" else "saved_other"] += 1
-            elif verdict.startswith("ok-probe-"):
-                stats["probe"][verdict[9:]] = stats["probe"].get(verdict[9:], 0) + 1
             else:
                 stats["ok"] += 1
                 chk.traces += 1
@@ -293,7 +304,7 @@ def run(tier):
         miss = {o for o in need if (R, o) not in obs_seen}
         if miss:
             vac.append("revision %d: observables never compared: %s" % (R, sorted(miss)))
-        opens = [r for r in recs if r["ev"] == "open" and r["cfg"]["R"] == R and r["variant"] == ""]
+        opens = [r for r in recs if r["ev"] == "open" and r["cfg"]["R"] == R]
         if not any(r["res"] == "err" and not r.get("expUser", True) and not r.get("expOwner", True) for r in opens):
             vac.append("revision %d: no wrong password tried" % R)
         if not any(r.get("expUser") for r in opens) or not any(r.get("expOwner") and not r.get("expUser") for r in opens):
@@ -306,6 +317,17 @@ def run(tier):
                     vac.append("revision %d: %s never recomputed for a %s password cut inside a character" % (R, obsname, who))
                 if not any(split_at_cut(r[who]) and r["try"] == r[who] and r["route"] == "file" for r in opens):
                     vac.append("revision %d: no file opened with a %s password cut inside a character" % (R, who))
+    # every legal form of the Length entry was given to lopdf with a right password (and opened, unless a listed deviation)
+    lenforms = {}
+    for r in recs:
+        if r["ev"] == "open" and (r.get("expUser") or r.get("expOwner")):
+            k = (r["cfg"]["V"], "absent" if r["dlen"] < 0 else str(r["dlen"]))
+            lenforms[k] = lenforms.get(k, 0) + (1 if r["res"] == "ok" and not r["bad"] else 0)
+    for k in [(1, "absent"), (1, "40"), (2, "absent"), (2, "40"), (2, "128"), (4, "absent"), (4, "128"), (5, "absent"), (5, "256")]:
+        if k not in lenforms:
+            vac.append("Length form never tried: V %d / %s" % k)
+        elif lenforms[k] == 0 and "V%d.%s" % k not in MODEL_DEV_LENGTH:
+            vac.append("no document with Length form V %d / %s opened" % k)
     kinds = {r["kind"] for r in recs if r["ev"] == "obs" and r["obs"] == "ct"}
     if not {"str.dict", "str.nested", "str.top", "str.streamdict", "stream", "stream.meta", "stream.xref", "str.id"} <= kinds:
         vac.append("item kinds never compared: %s" % kinds)
@@ -346,6 +368,10 @@ def run(tier):
                  and split_at_cut(r["try"]), "owner password cut inside a character")
         g["authO"], g["res"], g["fk"] = "no", "err", "na"
         neg.append((g, lambda v: v == "password-cut-in-character.R56"))
+        h = pick(lambda r: r["ev"] == "open" and r["cfg"]["V"] == 2 and r["dlen"] == -1 and r.get("expUser") and r["res"] == "ok",
+                 "V 2 document without Length opened with the user password")
+        h["authU"], h["res"], h["fk"], h["canonOpens"] = "no", "err", "na", "yes"
+        neg.append((h, lambda v: v == "length.V2.absent"))
         f = pick(lambda r: r["ev"] == "dict", "Encrypt dictionary")
         f["d"]["P"] += 1
         neg.append((f, lambda v: v.startswith("dict.P")))
@@ -368,7 +394,7 @@ def run(tier):
         for want in ("fk.R3", "fk.R4", "U.R6", "objkey.R4.AESV2"):
             if not any(s.startswith(want) for s in msigs):
                 raise vlib.ToolError("mutated terms not exposed against lopdf: no %s mismatch (got %s)" % (want, sorted(msigs)[:12]))
-        nneg = len(neg) + 3
+        nneg = len(neg) + 3  # + the three mutated transcriptions
     except vlib.ToolError as ex:
         vac.append(str(ex))
     chk.extra["negative_controls_rejected"] = nneg
@@ -401,5 +427,5 @@ def run(tier):
     chk.extra["env_skipped"] = stats["env_skipped"]
     chk.extra["saved_file_same_ciphertext"] = stats["saved_same"]
     chk.extra["saved_file_not_comparable"] = stats["saved_other"]
-    chk.extra["interop_probes"] = stats["probe"]
+    chk.extra["length_forms_opened"] = {"V%d/%s" % k: v for k, v in sorted(lenforms.items())}
     return chk.finish()
